@@ -7,7 +7,8 @@
    removeValueForFailedLoad's marking step repaired (Swap + decrement); the code as found (plain Store)
    violates the statement, see C16_Refuted.v. *)
 From SG Require Import Base.Prelude C16.RevCache C16.RevCacheLemmas C16.RevCacheProofs C16.RevCacheContent
-  C16.RevCacheRuns C16.RevCacheSharded C16.RevCacheConc C16.RevCacheConcProofs C16.RevCacheConcRest.
+  C16.RevCacheRuns C16.RevCacheSharded C16.RevCacheConc C16.RevCacheConcProofs C16.RevCacheConcRest
+  C16.RevCacheDelta C16.RevCacheDeltaProofs C16.RevCacheStep C16.RevCacheStepProofs.
 Open Scope Z_scope.
 
 (* the number of cached items never exceeds the configured capacity *)
@@ -152,6 +153,109 @@ Proof.
 Qed.
 Print Assumptions C16_cached_values_sized_at_rest_all_interleavings.
 
+(* ---------- the refined interleaving model (RevCacheStep.v): value.lock, contents, load log, delta cache ----------
+   [erun ksize (einit n l) acts] is any schedule of the named atomic steps of n goroutines over backing store l
+   (which may change through ESetLoad), with value.load split at value.lock.  It is the model the step-level
+   correspondence (C16_Corr.CSched) checks against the parked goroutines of the real code. *)
+
+(* every schedule of the refined model is a schedule of the abstract one: the theorems above apply to it *)
+Theorem C16_refined_schedules_project : forall (ksize : key -> N) n l acts s,
+  erun ksize (einit n l) acts = Some s ->
+  crun ksize true (cinit n) (eproj_run ksize (einit n l) acts) = Some (eb s).
+Proof. exact erun_refines. Qed.
+Print Assumptions C16_refined_schedules_project.
+
+(* SINGLE FLIGHT: in every interleaving at most one backing-store load is made for an inserted placeholder
+   value, and the per-value counter is exactly the number of loads (non-hit entries) the log shows for it *)
+Theorem C16_single_flight : forall (ksize : key -> N) n l acts s,
+  erun ksize (einit n l) acts = Some s ->
+  forall i, (enl s i <= 1)%nat /\ count_if (miss_of i) (elog s) = enl s i.
+Proof. exact single_flight. Qed.
+Print Assumptions C16_single_flight.
+
+(* a second Get of the same key while the first is loading WAITS (its value.load, and a Put's value.store,
+   are disabled while the loader holds value.lock) and SHARES: all Gets served from one value return the
+   outcome of its single load -- the same revision or the same error --, unless a Put/Upsert stored its
+   revision into that value in between (est; see C16_Refuted.shares_needs_no_store) *)
+Theorem C16_get_during_load_waits_and_shares : forall (ksize : key -> N) n l acts s,
+  erun ksize (einit n l) acts = Some s ->
+  (forall i t1, elock s i = Some t1 ->
+     (forall t2 k, nth_error (thr (eb s)) t2 = Some (GLoad i k) -> estep ksize s (ELoadBegin t2) = None) /\
+     (forall t2 k, nth_error (thr (eb s)) t2 = Some (PStore i k) -> estep ksize s (EStep t2 LPStore) = None)) /\
+  (forall e1 e2, In e1 (elog s) -> In e2 (elog s) -> ge_val e1 = ge_val e2 -> est s (ge_val e1) = false ->
+     ge_res e1 = ge_res e2 /\ elres s (ge_val e1) = Some (ge_res e1)).
+Proof.
+  intros ksize n l acts s R. split.
+  - intros i t1 L. exact (load_excludes ksize s i t1 L).
+  - exact (loads_shared ksize n l acts s R).
+Qed.
+Print Assumptions C16_get_during_load_waits_and_shares.
+
+(* value.lock is only ever held by a goroutine inside Get, for a value that holds nothing yet and was never loaded *)
+Theorem C16_lock_held_means_loading : forall (ksize : key -> N) n l acts s,
+  erun ksize (einit n l) acts = Some s ->
+  forall i t, elock s i = Some t ->
+  (exists k, nth_error (thr (eb s)) t = Some (GLoad i k)) /\ econt s i = None /\ enl s i = 0%nat.
+Proof. exact lock_held_means_loading. Qed.
+Print Assumptions C16_lock_held_means_loading.
+
+(* the delta cache shares the memory controller: in every reachable state of every schedule the counter is
+   revision accounting + the bytes of the cached deltas ... *)
+Theorem C16_combined_accounting_invariant_all_interleavings : forall (ksize : key -> N) n l acts s,
+  erun ksize (einit n l) acts = Some s ->
+  etotal s = sumf (base ksize) (heap (eb s)) - sumf (owes ksize) (thr (eb s)) + dsum (edl s).
+Proof. exact combined_accounting_invariant. Qed.
+Print Assumptions C16_combined_accounting_invariant_all_interleavings.
+
+(* ... and at rest it is exactly: sum of the cached revisions' sizes + sum of the cached deltas' sizes *)
+Theorem C16_combined_gauge_at_rest_all_interleavings : forall (ksize : key -> N) n l acts s,
+  erun ksize (einit n l) acts = Some s -> quiescent (eb s) ->
+  etotal s = cached_sized_bytes (eb s) + dsum (edl s) /\
+  gi (eb s) = cached_count (eb s) /\ edn s = Z.of_nat (length (edl s)) /\
+  (forall i v, nth_error (heap (eb s)) i = Some v -> cin v = true -> cm v = Sized).
+Proof. exact combined_gauge_at_rest. Qed.
+Print Assumptions C16_combined_gauge_at_rest_all_interleavings.
+
+(* ---------- the orchestrator with its delta cache, sequential (RevCacheDelta.v): ALL histories of
+   Get / GetActive / Put / Upsert / Remove / Peek / UpdateDelta / GetWithDelta and storage changes ---------- *)
+Theorem C16_delta_combined_gauge_exact : forall cfg l a ops,
+  dputs_ok cfg (dinit l a) ops ->
+  let s := drun cfg (dinit l a) ops in
+  total s = sum_sized (lru (drs s)) + dsum (dlru s) /\
+  Forall (fun kv => vmem (snd kv) = Sized /\ vbody (snd kv) <> None) (lru (drs s)).
+Proof. exact delta_combined_gauge_exact. Qed.
+Print Assumptions C16_delta_combined_gauge_exact.
+
+Theorem C16_delta_items_exact_and_bounded : forall cfg l a ops,
+  let s := drun cfg (dinit l a) ops in
+  dnum s = Z.of_nat (length (dlru s)) /\ NoDup (dkeys (dlru s)) /\ (length (dlru s) <= N.to_nat (cap cfg))%nat /\
+  items (drs s) = Z.of_nat (length (lru (drs s))) /\ NoDup (keys (lru (drs s))) /\
+  (length (lru (drs s)) <= N.to_nat (cap cfg))%nat.
+Proof. exact delta_items_exact. Qed.
+Print Assumptions C16_delta_items_exact_and_bounded.
+
+Theorem C16_delta_memory_bound : forall cfg l a ops,
+  maxb cfg <> 0%N -> dputs_ok cfg (dinit l a) ops ->
+  total (drun cfg (dinit l a) ops) <= Z.of_N (maxb cfg).
+Proof. exact delta_memory_bound. Qed.
+Print Assumptions C16_delta_memory_bound.
+
+(* removing every revision leaves exactly the deltas' bytes in the counter (the delta cache has no Remove) *)
+Theorem C16_delta_revisions_emptied : forall cfg l a ops,
+  dputs_ok cfg (dinit l a) ops ->
+  let s := drun cfg (dinit l a) ops in
+  let s' := drun cfg s (map (fun k => DRev (Remove k)) (keys (lru (drs s)))) in
+  lru (drs s') = [] /\ items (drs s') = 0 /\ dlru s' = dlru s /\ dnum s' = dnum s /\ total s' = dsum (dlru s).
+Proof. exact delta_revisions_emptied. Qed.
+Print Assumptions C16_delta_revisions_emptied.
+
+(* data of the non-vacuity example for the refined model and for the delta orchestrator *)
+Definition ex_sched : list eact :=
+  [EGet 0 5%N; ELoadBegin 0; EGet 1 5%N; EPut 2 5%N (mkC 5 45); EStep 2 LPBytes; EStep 2 LPCas; EStep 2 LPInc;
+   ELoadEnd 0; EStep 0 LGCas; ELoadBegin 1; EStep 2 LPStore; EDelta 9%N 30%N].
+Definition ex_dops : list dop :=
+  [DRev (Get 1%N); DUpdate 7%N 30%N; DUpdate 8%N 40%N; DGetWith 1%N 7%N].
+
 (* non-vacuity: a history with a failed load, a storage change, its Remove, evictions by count and by bytes
    satisfies the hypotheses; a two-goroutine schedule overlapping a load and a Put reaches rest with a
    non-zero gauge *)
@@ -161,13 +265,24 @@ Example C16_nonvacuous :
   keys (lru (run ex_cfg (init ex_ld ex_act) ex_ops)) = [3%N] /\ bytes (run ex_cfg (init ex_ld ex_act) ex_ops) = 43 /\
   (exists s, crun (fun _ => 50%N) true (cinit 2)
        [AGet 0 5%N None; APut 1 5%N (Some 0%nat); AStep 1; ALoad 0 true; AStep 1; AStep 0; AStep 1; AStep 1] = Some s /\
-     quiescent s /\ gb s = 50).
+     quiescent s /\ gb s = 50) /\
+  (* refined model: two overlapping Gets of one key, a Put parked on value.lock, a delta; at rest *)
+  (exists s, erun (fun k => (40 + k)%N) (einit 3 ex_ld) ex_sched = Some s /\ quiescent (eb s) /\
+     etotal s = 75 /\ length (elog s) = 2%nat /\ enl s 0%nat = 1%nat) /\
+  (* orchestrator with delta cache: evictions from both caches under a byte limit *)
+  (dputs_ok ex_cfg (dinit ex_ld ex_act) ex_dops /\
+   keys (lru (drs (drun ex_cfg (dinit ex_ld ex_act) ex_dops))) = [1%N] /\
+   dkeys (dlru (drun ex_cfg (dinit ex_ld ex_act) ex_dops)) = [7%N] /\
+   total (drun ex_cfg (dinit ex_ld ex_act) ex_dops) = 71).
 Proof.
-  split; [|split; [|split; [|split; [|split]]]].
+  split; [|split; [|split; [|split; [|split; [|split; [|split]]]]]].
   - unfold ex_ops. cbn [puts_ok put_ok]. repeat split. vm_compute. intros v H. discriminate H.
   - unfold ex_ops. cbn [writes_through write_through]. repeat split.
   - reflexivity.
   - vm_compute. reflexivity.
   - vm_compute. reflexivity.
   - eexists. split; [vm_compute; reflexivity|]. split; [repeat constructor | reflexivity].
+  - eexists. split; [vm_compute; reflexivity|]. split; [repeat constructor|]. repeat split; reflexivity.
+  - split; [|repeat split; vm_compute; reflexivity].
+    unfold ex_dops. cbn [dputs_ok dput_ok]. repeat split.
 Qed.
